@@ -117,6 +117,57 @@ def drvWalk : List Nat → XKey → Option XKey → List String → List String
 def parsePath? (s : String) : Option (List Nat) :=
   if s == "-" then some [] else (s.splitOn ",").mapM (·.toNat?)
 
+/-! taproot -/
+
+def taggedL (tag : String) (msg : List UInt8) : List UInt8 :=
+  (BV.Sha256.tagged tag (ByteArray.mk msg.toArray)).toList
+
+def compactSize (n : Nat) : List UInt8 :=
+  if n < 0xfd then [UInt8.ofNat n]
+  else if n ≤ 0xffff then 0xfd :: natLE n 2
+  else if n ≤ 0xffffffff then 0xfe :: natLE n 4
+  else 0xff :: natLE n 8
+
+def tapLeafHash (v : UInt8) (s : List UInt8) : List UInt8 := taggedL "TapLeaf" (v :: compactSize s.length ++ s)
+def tapBranchTag (l r : List UInt8) : List UInt8 := taggedL "TapBranch" (l ++ r)
+
+/-- `ComputeTaprootOutputKey` on the x-only internal key -/
+def tapOutKey (x root : List UInt8) : List UInt8 × Bool :=
+  match Secp.liftX (Secp.beNat x) false with
+  | none => ([], false)
+  | some p =>
+    let t := Secp.beNat (taggedL "TapTweak" (x ++ root)) % Secp.n
+    match Secp.add (some p) (Secp.mulG t) with
+    | some q => (Secp.xOnly q, q.2 % 2 == 1)
+    | none => (List.replicate 32 0, false)
+
+def parseLeaf? (i : Nat) (s : String) : Option TapTree :=
+  match s.splitOn ":" with
+  | [v, sc] => match hexToList? v, hexToList? sc with
+    | some [v], some sc => some (.leaf i v sc)
+    | _, _ => none
+  | _ => none
+
+def parseLeaves? (s : String) : Option (List TapTree) :=
+  let parts := s.splitOn ","
+  (List.range parts.length).zip parts |>.mapM (fun (i, p) => parseLeaf? i p)
+
+def showTap (internal : List UInt8) (leaves : List TapTree) : String :=
+  match Secp.parsePubKey internal, assembleTree leaves with
+  | some pk, some t =>
+    let x := Secp.xOnly pk
+    let root := t.hash tapLeafHash tapBranchTag
+    let (prog, _) := tapOutKey x root
+    let proofs := t.proofs tapLeafHash tapBranchTag
+    let one (i : Nat) : String :=
+      match proofs.find? (·.idx == i) with
+      | none => "missing"
+      | some p =>
+        let cb := controlBlock tapOutKey x root p
+        tok cb.bytes ++ ":" ++ (if verifyLeaf tapLeafHash tapBranchTag tapOutKey cb prog p.script then "ok" else "fail")
+    tok root ++ " " ++ tok prog ++ " | " ++ ",".intercalate ((List.range leaves.length).map one)
+  | _, _ => "err"
+
 def handle : List String → String
   | ["b58e", b] => match hexToList? b with
     | some b => tok (b58Encode b)
@@ -192,6 +243,9 @@ def handle : List String → String
         let head := xs m ++ "|" ++ (match nm with | some x => xs x | none => "err")
         " ".intercalate (head :: drvWalk path m nm [])
     | _, _, _ => "bad-op"
+  | ["tap", internal, leaves] => match hexToList? internal, parseLeaves? leaves with
+    | some k, some ls => showTap k ls
+    | _, _ => "bad-op"
   | _ => "bad-op"
 
 end BV.C16.Driver
